@@ -33,6 +33,8 @@ func init() {
 			{ID: "C08-R8", Title: "converters keep no scratch state between conversions (shared with C09-R7)", Floor: 5, Run: cachedObjectsImmutable},
 			{ID: "C08-R9", Title: "the hand-back helper converts unless assignable or inconvertible", Floor: 1, Run: conversionHelperConverts},
 			{ID: "C08-R10", Title: "integers handed back to Go do not pass through float64", Floor: 3, Run: intNotThroughFloat},
+			{ID: "C08-R11", Title: "run-time filled converter tables are consulted only as memos", Floor: 2, Run: memoTablesAreOnlyMemos},
+			{ID: "C08-R12", Title: "objects registered before they are complete are not read by what the constructor calls", Floor: 1, Run: publishedBeforeComplete},
 		},
 	})
 }
